@@ -49,6 +49,8 @@ THEOREMS = ['C18_run_fresh_state', 'C18_history_independent',
             'C18_stage_history_independent',
             'C18_leaky_stage_depends_on_history', 'C18_stage_shapes_linked',
             'C18_history_independent_linked',
+            'C18_chained_pipeline_history_independent_linked',
+            'C18_chained_pipeline_shapes_linked',
             'C18_volume_text_order_irrelevant',
             'C18_remove_keys_order_irrelevant',
             'C18_sorted_depends_on_set_only',
